@@ -40,7 +40,7 @@ def kinds ():
   for c in nxm_classes():
     ks.append("nxm:" + c.__name__)
     if c().allow_mask: ks.append("nxmm:" + c.__name__)
-  ks += ["match", "match"]
+  ks += ["match", "match", "fm_table_id"]
   return ks
 
 
@@ -101,6 +101,13 @@ def check_nxm (ctx, rng, cname, masked):
   width = cls._nxm_length
   if (h >> 9) != cls._nxm_type:
     ctx.fire(cname, "NXM header type", "%x" % h)
+  sp = SPEC_NXM.get(cname)
+  if sp is not None:
+    ctx.rep.count("nxm_numbers_compared")
+    if (h >> 16, (h >> 9) & 0x7f) != sp[:2] or width != sp[2]:
+      ctx.fire(cname, "NXM class/field/width are not those nicira-ext.h gives it",
+               "header %08x (class %d field %d), width %d; specified %r" %
+               (h, h >> 16, (h >> 9) & 0x7f, width, sp))
   if ln != len(b) - 4 or ln != width * (1 + hasmask):
     ctx.fire(cname, "NXM header length != payload length",
              "len field %d hasmask %d payload %d width %d" %
@@ -158,29 +165,104 @@ def gen_nx_match (rng):
   return m
 
 
+# NXAST_* numbers and NXT_* numbers as nicira-ext.h gives them (not read from
+# the library): the check compares the wire with these
+SPEC_NXAST = dict(controller=20, push_mpls=23, pop_mpls=24, mpls_label=30, mpls_tc=31,
+                  resubmit=1, resubmit_table=14, set_tunnel=2, set_tunnel64=9,
+                  fin_timeout=19, exit=17, dec_ttl=18, output_reg=15, reg_move=6,
+                  reg_load=7, bundle=12, bundle_load=13, learn=16)
+SPEC_NXT = dict(flow_mod_table_id=15, packet_in_format=16, role_request=10,
+                role_reply=11, async_config=19, nx_flow_mod=13, nx_flow_mod_nxact=13,
+                nxt_packet_in=17)
+
+
+# bodies (bytes 16..) of the small messages
+SMALL_MSG_BODY = dict(
+  flow_mod_table_id=lambda m: struct.pack("!B7x", 1 if m.enable else 0),
+  packet_in_format=lambda m: struct.pack("!L", m.format),
+  role_request=lambda m: struct.pack("!L", m.role),
+  role_reply=lambda m: struct.pack("!L", m.role),
+  async_config=lambda m: struct.pack("!LLLLLL", m.packet_in_mask, m.packet_in_mask_slave,
+                                     m.port_status_mask, m.port_status_mask_slave,
+                                     m.flow_removed_mask, m.flow_removed_mask_slave))
+
+# NXM numbering: name -> (vendor/class, field, width in octets)
+SPEC_NXM = dict(
+  NXM_OF_IN_PORT=(0, 0, 2), NXM_OF_ETH_DST=(0, 1, 6), NXM_OF_ETH_SRC=(0, 2, 6),
+  NXM_OF_ETH_TYPE=(0, 3, 2), NXM_OF_VLAN_TCI=(0, 4, 2), NXM_OF_IP_TOS=(0, 5, 1),
+  NXM_OF_IP_PROTO=(0, 6, 1), NXM_OF_IP_SRC=(0, 7, 4), NXM_OF_IP_DST=(0, 8, 4),
+  NXM_OF_TCP_SRC=(0, 9, 2), NXM_OF_TCP_DST=(0, 10, 2), NXM_OF_UDP_SRC=(0, 11, 2),
+  NXM_OF_UDP_DST=(0, 12, 2), NXM_OF_ICMP_TYPE=(0, 13, 1), NXM_OF_ICMP_CODE=(0, 14, 1),
+  NXM_OF_ARP_OP=(0, 15, 2), NXM_OF_ARP_SPA=(0, 16, 4), NXM_OF_ARP_TPA=(0, 17, 4),
+  NXM_NX_TUN_ID=(1, 16, 8), NXM_NX_ARP_SHA=(1, 17, 6), NXM_NX_ARP_THA=(1, 18, 6),
+  NXM_NX_IPV6_SRC=(1, 19, 16), NXM_NX_IPV6_DST=(1, 20, 16),
+  NXM_NX_ICMPV6_TYPE=(1, 21, 1), NXM_NX_ICMPV6_CODE=(1, 22, 1),
+  NXM_NX_ND_TARGET=(1, 23, 16), NXM_NX_ND_SLL=(1, 24, 6), NXM_NX_ND_TLL=(1, 25, 6),
+  NXM_NX_IP_FRAG=(1, 26, 1), NXM_NX_IPV6_LABEL=(1, 27, 4), NXM_NX_IP_ECN=(1, 28, 1),
+  NXM_NX_IP_TTL=(1, 29, 1), NXM_NX_COOKIE=(1, 30, 8), NXM_NX_TUN_IPV4_SRC=(1, 31, 4),
+  NXM_NX_TUN_IPV4_DST=(1, 32, 4), NXM_NX_TCP_FLAGS=(1, 34, 2))
+for _i in range(16): SPEC_NXM["NXM_NX_REG%d" % _i] = (1, _i, 4)
+
+
+def spec_action_body (k, v):
+  """Bytes 10.. of the simple actions, from the values asked for."""
+  P = struct.pack
+  if k == "controller": return P("!HHBx", v["max_len"], v["controller_id"], v["reason"])
+  if k in ("push_mpls", "pop_mpls"): return P("!H4x", v["ethertype"])
+  if k == "mpls_label": return P("!2xL", v["label"])
+  if k == "mpls_tc": return P("!B5x", v["tc"])
+  if k == "resubmit": return P("!HB3x", v["in_port"], 0)
+  if k == "resubmit_table": return P("!HB3x", v["in_port"], v["table"])
+  if k == "set_tunnel": return P("!2xL", v["tun_id"])
+  if k == "set_tunnel64": return P("!6xQ", v["tun_id"])
+  if k == "fin_timeout": return P("!HH2x", v["fin_idle_timeout"], v["fin_hard_timeout"])
+  if k in ("exit", "dec_ttl"): return b"\0" * 6
+  return None
+
+
 def gen_action (rng, k):
+  a = _gen_action(rng, k)
+  if not hasattr(a, "_pvm"):
+    try: a._pvm = (k, None)
+    except Exception: pass
+  return a
+
+
+def _gen_action (rng, k):
   n = nx()
   cs = [c for c in nxm_classes() if c._nxm_length in (1, 2, 4, 8)]
   regs = [c for c in nxm_classes() if c.__name__.startswith("NXM_NX_REG")]
+  v = {}
+  def tagged (a):
+    # the values asked for and the kind, for the layout oracle (nicira-ext.h)
+    a._pvm = (k, dict(v))
+    return a
   if k == "controller":
-    return n.nx_action_controller(max_len=rint(rng, 16),
-                                  controller_id=rint(rng, 16),
-                                  reason=rint(rng, 8))
-  if k == "push_mpls": return n.nx_action_push_mpls(ethertype=rint(rng, 16))
-  if k == "pop_mpls": return n.nx_action_pop_mpls(ethertype=rint(rng, 16))
-  if k == "mpls_label": return n.nx_action_mpls_label(label=rint(rng, 32))
-  if k == "mpls_tc": return n.nx_action_mpls_tc(tc=rint(rng, 8))
-  if k == "resubmit": return n.nx_action_resubmit.resubmit(in_port=rint(rng, 16))
+    v.update(max_len=rint(rng, 16), controller_id=rint(rng, 16), reason=rint(rng, 8))
+    return tagged(n.nx_action_controller(**v))
+  if k == "push_mpls":
+    v.update(ethertype=rint(rng, 16)); return tagged(n.nx_action_push_mpls(**v))
+  if k == "pop_mpls":
+    v.update(ethertype=rint(rng, 16)); return tagged(n.nx_action_pop_mpls(**v))
+  if k == "mpls_label":
+    v.update(label=rint(rng, 32)); return tagged(n.nx_action_mpls_label(**v))
+  if k == "mpls_tc":
+    v.update(tc=rint(rng, 8)); return tagged(n.nx_action_mpls_tc(**v))
+  if k == "resubmit":
+    v.update(in_port=rint(rng, 16))
+    return tagged(n.nx_action_resubmit.resubmit(**v))
   if k == "resubmit_table":
-    return n.nx_action_resubmit.resubmit_table(table=rint(rng, 8),
-                                               in_port=rint(rng, 16))
-  if k == "set_tunnel": return n.nx_action_set_tunnel(tun_id=rint(rng, 32))
-  if k == "set_tunnel64": return n.nx_action_set_tunnel64(tun_id=rint(rng, 64))
+    v.update(table=rint(rng, 8), in_port=rint(rng, 16))
+    return tagged(n.nx_action_resubmit.resubmit_table(**v))
+  if k == "set_tunnel":
+    v.update(tun_id=rint(rng, 32)); return tagged(n.nx_action_set_tunnel(**v))
+  if k == "set_tunnel64":
+    v.update(tun_id=rint(rng, 64)); return tagged(n.nx_action_set_tunnel64(**v))
   if k == "fin_timeout":
-    return n.nx_action_fin_timeout(fin_idle_timeout=rint(rng, 16),
-                                   fin_hard_timeout=rint(rng, 16))
-  if k == "exit": return n.nx_action_exit()
-  if k == "dec_ttl": return n.nx_action_dec_ttl()
+    v.update(fin_idle_timeout=rint(rng, 16), fin_hard_timeout=rint(rng, 16))
+    return tagged(n.nx_action_fin_timeout(**v))
+  if k == "exit": return tagged(n.nx_action_exit())
+  if k == "dec_ttl": return tagged(n.nx_action_dec_ttl())
   if k == "output_reg":
     c = rng.choice(regs or cs)
     nbits = rng.randrange(1, min(c._nxm_length * 8, 64) + 1)
@@ -223,13 +305,26 @@ def gen_action (rng, k):
         a.spec.append(fms(field=n.NXM_OF_VLAN_TCI, n_bits=12))
       elif r < 0.7:
         a.spec.append(fms(field=n.NXM_OF_ETH_SRC, match=n.NXM_OF_ETH_DST))
-      else:
+      elif r < 0.85:
         a.spec.append(fms(field=n.NXM_OF_IN_PORT, output=True))
+      else:
+        # an immediate value loaded into (part of) a register
+        nb = rng.choice([16, 16, 8, 32, 12])
+        imm = n.nx_learn_src_immediate(rbytes(rng, (nb + 15) // 16 * 2), nb)
+        a.spec.append(fms(src=imm, dst=n.nx_learn_dst_load(
+          rng.choice(regs or cs), rng.choice([0, 0, 4]), nb)))
     return a
   raise KeyError(k)
 
 
 def gen_msg (rng, k):
+  m = _gen_msg(rng, k)
+  try: m._pvm_kind = k
+  except Exception: pass
+  return m
+
+
+def _gen_msg (rng, k):
   n = nx()
   import pox.openflow.libopenflow_01 as of
   xid = rint(rng, 32)
@@ -259,13 +354,16 @@ def gen_msg (rng, k):
                          command=rng.randrange(5), idle_timeout=rint(rng, 16),
                          hard_timeout=rint(rng, 16), priority=rint(rng, 16),
                          out_port=rint(rng, 16), flags=rint(rng, 16),
+                         table_id=rng.choice([0, 0, 1, 254, 255, rint(rng, 8)]),
+                         buffer_id=rng.choice([None, None, 0, 1, rint(rng, 32) & 0x7fffffff]),
                          actions=acts)
   if k == "nxt_packet_in":
     data = rbytes(rng, rng.choice([0, 1, 14, 60, 100]))
     m = n.nxt_packet_in(xid=xid, reason=rint(rng, 8), table_id=rint(rng, 8),
                         cookie=rint(rng, 64), data=data,
                         total_len=len(data) + rng.choice([0, 0, 10]))
-    m.buffer_id = rng.choice([None, 1, rint(rng, 32) & 0x7fffffff])
+    if rng.random() < 0.8:
+      m.buffer_id = rng.choice([None, 1, rint(rng, 32) & 0x7fffffff])
     m.match = gen_nx_match(rng)
     return m
   raise KeyError(k)
@@ -358,6 +456,19 @@ def roundtrip_message (ctx, m, rng, cname=None):
     ctx.fire(cname, "vendor message header", b[:16].hex())
   if subtype != m.subtype:
     ctx.fire(cname, "vendor subtype", "%d vs %d" % (subtype, m.subtype))
+  mk = getattr(m, "_pvm_kind", None)
+  if mk is not None and subtype != SPEC_NXT[mk]:
+    ctx.fire(cname, "vendor subtype is not the number nicira-ext.h gives it",
+             "%d vs %d" % (subtype, SPEC_NXT[mk]))
+  if mk in SMALL_MSG_BODY:
+    try:
+      want = SMALL_MSG_BODY[mk](m)
+      ctx.rep.count("nx_message_bodies_compared")
+      if b[16:] != want:
+        ctx.fire(cname, "message body layout differs from nicira-ext.h",
+                 "got %s, specified %s" % (b[16:].hex(), want.hex()))
+    except Exception as e:
+      ctx.fire(cname, "layout check could not read the object (%s)" % type(e).__name__, repr(e))
   ctx.rep.count("layout_compared")
   nx_layout(ctx, cname, m, b)
   pre = rbytes(rng, rng.choice([0, 8]))
@@ -414,6 +525,18 @@ def roundtrip_action (ctx, a, rng):
              "type %x len %d (bytes %d) vendor %x" % (t, l, len(b), vendor))
   if subtype != a.subtype:
     ctx.fire(cname, "vendor action subtype", "%d vs %d" % (subtype, a.subtype))
+  tag = getattr(a, "_pvm", None)
+  if tag is not None:
+    if subtype != SPEC_NXAST[tag[0]]:
+      ctx.fire(cname, "vendor action subtype is not the number nicira-ext.h gives it",
+               "%d vs %d" % (subtype, SPEC_NXAST[tag[0]]))
+    if tag[1] is not None:
+      want = spec_action_body(tag[0], tag[1])
+      if want is not None:
+        ctx.rep.count("nx_action_bodies_compared")
+        if b[10:] != want:
+          ctx.fire(cname, "action body layout differs from nicira-ext.h",
+                   "got %s, specified %s" % (b[10:].hex(), want.hex()))
   ctx.rep.count("layout_compared")
   pre = rbytes(rng, rng.choice([0, 8]))
   for suffix in (b"", rbytes(rng, 8)):
@@ -439,6 +562,71 @@ def roundtrip_action (ctx, a, rng):
     except Exception as e:
       ctx.fire(cname, "re-pack raises %s" % type(e).__name__, repr(e))
   ctx.rep.count("roundtrips")
+  return b
+
+
+def check_fm_table_id (ctx, rng):
+  """
+  ofp_flow_mod_table_id: an ordinary OFPT_FLOW_MOD whose command field carries
+  the table id in its upper octet (NXT_FLOW_MOD_TABLE_ID extension).
+  """
+  from pvm.gen import ofgen
+  from pvm.ref import ofwire
+  n = nx()
+  cname = "ofp_flow_mod_table_id"
+  base = ofgen.gen_message(rng, "flow_mod")
+  tid = rng.choice([0, 1, 3, 254, 255, rint(rng, 8)])
+  cmd = rng.randrange(5)
+  m = n.ofp_flow_mod_table_id(xid=base.xid, match=base.match, cookie=base.cookie,
+                              command=cmd, idle_timeout=base.idle_timeout,
+                              hard_timeout=base.hard_timeout, priority=base.priority,
+                              buffer_id=base.buffer_id, out_port=base.out_port,
+                              flags=base.flags, actions=base.actions, table_id=tid)
+  try:
+    b = m.pack()
+  except Exception as e:
+    ctx.fire(cname, "pack raises %s" % type(e).__name__, repr(e)); return None
+  ctx.rep.count("objects")
+  if m.command != cmd or m.table_id != tid:
+    ctx.fire(cname, "encoding changed the object's own fields",
+             "command %r table_id %r, asked for %r %r" % (m.command, m.table_id, cmd, tid))
+  base.command = cmd | (tid << 8)
+  try:
+    name, f = ofgen.message_fields(base)
+    exp = ofwire.enc_message(name, f)
+    # (the wildcard normalisation of inapplicable fields is the library's)
+    exp = exp[:8] + b[8:12] + exp[12:]
+    ctx.rep.count("layout_compared")
+    if exp != b:
+      ctx.fire(cname, "layout differs (flow_mod with the table id above the command)",
+               "got %s, specified %s" % (b[:72].hex(), exp[:72].hex()))
+  except Exception as e:
+    ctx.fire(cname, "reference encoder could not encode fields", repr(e))
+  for suffix in (b"", rbytes(rng, 8)):
+    try:
+      m2 = n.ofp_flow_mod_table_id()
+      r = m2.unpack(b + suffix, 0)
+    except Exception as e:
+      ctx.fire(cname, "unpack raises %s" % type(e).__name__, repr(e)); return b
+    off = r[0] if isinstance(r, tuple) else r
+    if off != len(b):
+      ctx.fire(cname, "decode consumed wrong number of bytes", "%r vs %d" % (off, len(b)))
+    try:
+      if not (m2 == m) or (m2 != m) or not (m == m):
+        ctx.fire(cname, "decoded object not equal to original",
+                 "table_id %r/%r command %r/%r" % (m2.table_id, m.table_id, m2.command, m.command))
+      m3 = n.ofp_flow_mod_table_id(); m3.unpack(b, 0); m3.table_id = (tid + 1) & 0xff
+      if m3 == m:
+        ctx.fire(cname, "objects with different table ids compare equal", "")
+    except Exception as e:
+      ctx.fire(cname, "__eq__ raises %s" % type(e).__name__, repr(e))
+    try:
+      if m2.pack() != b:
+        ctx.fire(cname, "re-encoding differs", "")
+    except Exception as e:
+      ctx.fire(cname, "re-pack raises %s" % type(e).__name__, repr(e))
+  ctx.rep.count("roundtrips")
+  ctx.rep.count("flow_mods_with_table_id")
   return b
 
 
@@ -469,6 +657,8 @@ def do_nx (ctx, kind, rng, case):
       ctx.fire("nx_match", "decoded object not equal to original", b.hex())
     ctx.rep.count("roundtrips")
     return b
+  if kind == "fm_table_id":
+    return check_fm_table_id(ctx, rng)
   if kind.startswith("act:"):
     a = gen_action(rng, kind[4:])
     return roundtrip_action(ctx, a, rng)
